@@ -8,7 +8,7 @@ from pathlib import Path
 
 VERIF = Path(__file__).resolve().parent.parent
 NOTES = {
-    "C02-r3change2": "MISSED by ./check C02 (the plans do not reach a lightning hit with zero frost stacks while the shock is active); it is the mechanism of C08-change1 (a reducer's `+=` on a module-level Stat) and is caught by `./check C08 quick` with a failing input and by the effect checker independently of any state",
+    "C02-r3change2": "missed at first (the plans do not reach a lightning hit with zero frost stacks while the shock is active; it is the mechanism of C08-change1): the check now asks the effect translator which reducers / views READ a module-level mutable object (none on the unchanged tree), replays their harvested calls and the states reached when time passes, and compares the snapshot of all module / class level state around them",
     "C07-r3change1": "missed at first: added time-advance forks (one long elapse from reached checkpoints so that buffs run out while cooldowns still run, then every skill pressed once on its own copy of the store); also rejected by the C08 effect checker (a query method that assigns)",
     "C07-r3change2": "MISSED by ./check C07 quick (needs Order swords, Storm cast and run out in one elapse step); a pydantic validator of a state class that writes an entity was a blind spot of the effect model too: validators / serializers / computed fields / __init__ / model_post_init of every entity, state and component class are now lowered and checked like methods (gen_effects.lower_hooks), the harvest replay rebuilds each state object and compares the entities, and the targeted search also visits the states reached when time passes; caught by `./check C08 quick` with a failing input",
     "C08-r3change2": "caught by the broken obligation only (the private cache is rejected by the translator / checker); a failing input needs two Storm uses with different sword counts on one component; the replay now also repeats every call on a pristine component rebuilt from the component's own dump",
